@@ -23,7 +23,8 @@ import json,sys
 ID,res=sys.argv[1:3]
 p=f'/verif/seeded/{ID}/meta.json'
 m=json.load(open(p))
-m.setdefault('history',[]).append({"checks_run_against_it":m['checks_run_against_it'],"note":"earlier attempt, before the checks were strengthened"})
+if m['checks_run_against_it']:
+    m.setdefault('attempts',[]).append({"checks_run_against_it":m['checks_run_against_it'],"note":"earlier attempt, before the checks were strengthened"})
 m['checks_run_against_it']=json.loads(res)
 json.dump(m,open(p,'w'),indent=1)
 PY
